@@ -670,7 +670,8 @@ theorem weights_round_trip (w : Weights) (id l r j : Nat) :
     (min ≥ 1, max ≥ min, six halvings stay above the minimum and the seventh does not), both key builders use
     the 20-digit zero-padded format, `RegionStorage.Remove` (repair of F7b) drops the pending batch entry
     before it deletes from leveldb, under the storage mutex, `FlushRegion` holds that mutex, and `LoadRegionsOnce` sets
-    its flag after the call of `loadRegions` (as `loadRegionsOnce` in the model). -/
+    its flag after the call of `loadRegions` (as `loadRegionsOnce` in the model), and `Storage.Flush` / `Storage.Close`
+    do not look at the backend selector (the pending batch is flushed whichever backend is selected). -/
 theorem limits_sane :
     1 ≤ PdModel.Generated.StorageLoad.minKVRangeLimit ∧
     PdModel.Generated.StorageLoad.minKVRangeLimit ≤ PdModel.Generated.StorageLoad.maxKVRangeLimit ∧
@@ -681,6 +682,8 @@ theorem limits_sane :
     PdModel.Generated.StorageLoad.removeIsOneSection = true ∧
     PdModel.Generated.StorageLoad.removeDropsPendingFirst = true ∧
     PdModel.Generated.StorageLoad.flushIsOneSection = true ∧
-    PdModel.Generated.StorageLoad.onceFlagSetAfterLoad = true := by decide
+    PdModel.Generated.StorageLoad.onceFlagSetAfterLoad = true ∧
+    PdModel.Generated.StorageLoad.flushLooksAtSelector = false ∧
+    PdModel.Generated.StorageLoad.closeLooksAtSelector = false := by decide
 
 end PdModel.StorageLoad
